@@ -1,20 +1,23 @@
 #!/bin/bash
 # ./seedtest.sh <patch.diff> [tier] [Cxx ...]
-# Applies a seeded change to /repo, runs the given checks (default: all, quick tier),
-# prints which of them report a violation, and ALWAYS restores /repo afterwards.
+# Applies a seeded change to a SCRATCH worktree of /repo's HEAD (never to /repo itself),
+# runs the given checks against it (default: all, quick tier; VERIF_REPO redirects the
+# harness build), prints which of them report a violation, and removes the worktree.
+# Evidence and replay files go to a scratch copy of the verification tree, not to /verif.
 set -u
-patch=$1; shift
+patch=$(readlink -f "$1"); shift
 tier=quick
 if [ "${1:-}" = quick ] || [ "${1:-}" = thorough ]; then tier=$1; shift; fi
 props=("$@")
 [ ${#props[@]} -eq 0 ] && props=(C01 C02 C03 C04 C05 C06 C07 C08 C09 C10 C11 C12 C13 C14 C15 C16 C17 C18 C19 C20)
-if [ -n "$(git -C /repo status --porcelain --untracked-files=no)" ]; then echo "/repo has local changes; refusing" >&2; exit 2; fi
-trap 'git -C /repo checkout -- . ; git -C /repo status --porcelain --untracked-files=no' EXIT
-git -C /repo apply "$patch" || { echo "patch does not apply" >&2; exit 2; }
+wt=$(mktemp -d /tmp/seedrepo-XXXXXX); rmdir "$wt"
+git -C /repo worktree add --detach "$wt" HEAD >/dev/null 2>&1 || { echo "cannot create worktree" >&2; exit 2; }
+trap 'git -C /repo worktree remove --force "$wt" >/dev/null 2>&1; git -C /repo worktree prune' EXIT
+git -C "$wt" apply "$patch" || { echo "patch does not apply" >&2; exit 2; }
 caught=()
 for p in "${props[@]}"; do
   s=$(date +%s)
-  out=$(/verif/check.sh "$p" "$tier" 2>&1); rc=$?
+  out=$(VERIF_REPO="$wt" VERIF_OUT=/dev/shm/seedtest-out /verif/check.sh "$p" "$tier" 2>&1); rc=$?
   e=$(date +%s)
   nv=$(echo "$out" | grep -c '^VIOLATION')
   sigs=$(echo "$out" | grep "^--- $p sig=" | sed 's/^--- //' | sort | uniq -c | head -4 | tr '\n' ';')
@@ -22,4 +25,5 @@ for p in "${props[@]}"; do
   [ $rc -eq 1 ] && caught+=("$p")
   [ $rc -eq 2 ] && echo "$out" | tail -5
 done
+rm -rf /dev/shm/seedtest-out
 echo "CAUGHT-BY: ${caught[*]:-none}"
